@@ -120,7 +120,7 @@ def _case(draw, maxdepth):
             body = f"({draw(_expr(1, [p]))} == 1) or ({body} in {p}.x)"
     form = draw(st.sampled_from(["string", "string", "ast", "callable", "callable"]))
     # history: typed queries built earlier in the same process, binding the free names as lambda parameters
-    prelude = draw(st.lists(st.tuples(st.sampled_from(FREE_NAMES + [p]), st.sampled_from(["str", "dict", "class"])).map(list), max_size=3))
+    prelude = draw(st.lists(st.tuples(st.sampled_from(FREE_NAMES + [p]), st.sampled_from(["str", "dict", "class", "same-text"])).map(list), max_size=3))
     return {"op": op, "param": p, "body": body, "form": form, "prelude": prelude}
 
 
@@ -254,6 +254,13 @@ def check(case) -> Result:
     # earlier, unrelated, *typed* queries in the same process must not influence an untyped one
     for pname, kind in case.get("prelude", []):
         r.labels.append("history:typed-query-before")
+        if kind == "same-text":
+            # the very same lambda text was used before on a typed dataset (one analysis, several samples)
+            try:
+                getattr(DS(_Typed), op)(text)
+            except Exception:
+                pass
+            continue
         try:
             if kind == "str":
                 base = DS().Select("lambda e: 'jet'")
